@@ -228,6 +228,18 @@ theorem C08_stop_targets_every_watcher (rec : Rec) (wt : Waiter) (s : State) :
   · intro rec' wt' v
     cases v <;> rfl
 
+/-- **every one of them is really started**: `_stop_watchers` starts `w._stop(True)` for each watcher
+    of the list, in list order, child `i` reporting to slot `i` of the `gen.multi` frame, before it
+    suspends (`startAll` is the explicit left-to-right fold). -/
+theorem C08_stop_starts_every_stop (rec : Rec) (ws : List Nat) (wt : Waiter) (s : State) (h : ws ≠ []) :
+    (runCall rec (.arbStopWatchers ws true) wt s).2 =
+      (armFrame s.nextId (armFrame (s.nextId + 1)
+        (startAll rec (s.nextId + 1) (ws.map fun w => .stop_ w true) 0
+          (newFrame (.multi ws.length []) (.frame s.nextId 0) (newFrame .ignore wt s).2).2)).2).2 := by
+  have := awaitMulti_starts_all rec (ws.map fun w => Call.stop_ w true) .ignore wt s (by simpa using h)
+  rw [List.length_map] at this
+  exact this
+
 /-! ### 4. the stopped loop closes everything, for ever -/
 
 /-- when all watchers are stopped the loop is told to stop … -/
@@ -242,6 +254,7 @@ theorem C08_step_tail_closes (s : State) (h : (settle 100000 s).2.a.loopStop = t
   simp only [bind, getA]
   erw [if_pos h]
 
+/-- … and a loop that was not stopped closes nothing: the step ends when the ready queue is empty -/
 theorem C08_step_tail_keeps_running (s : State) (h : (settle 100000 s).2.a.loopStop = false) :
     stepTail s = ((), (settle 100000 s).2) := by
   unfold stepTail
